@@ -173,6 +173,33 @@ def placement_phase(res, tier, rng):
     res.cov["placement_failures"] = nbad
 
 
+def stranding_streams(tier, rng):
+    """explicit resizes to a target that is too small for the contents: the temporary map of the rebuild then doubles while it
+    is being filled, with deferred per-stripe migration once it has at least as many buckets as stripes; every key must be
+    reachable from its hash afterwards (lookups of ALL keys + structural scan + size)"""
+    import k2
+    out = []
+    picks = [(1, 2, 0), (2, 4, 0), (4, 8, 0), (2, 2, 1)] if tier == "quick" else [(S, M, k) for S in (1, 2, 4, 8) for M in (2, 4, 8) for k in (0, 1, 2)]
+    for S, M, kind in picks:
+        for hm in (0, 4):
+            cfg = k2.Cfg(S, M, kind, hm)
+            n = rng.choice([6, 10, 16]) * M * S
+            keys = rng.sample(range(1, 100000), n)
+            lines = [cfg.line(), "m new 0 %d" % rng.choice([1, 4, 16]), "m setmlf 0 %d" % k2.dbits(0.0)]
+            for k in keys:
+                lines.append("m insert 0 %d %d" % (k, k % 997))
+            for req in ("m rehash 0 %d" % rng.choice([0, 1, 2]), "m reserve 0 %d" % rng.choice([1, 2, S + 1]), "m rehash 0 0"):
+                lines += [req, "m stats 0", "m inv 0"]
+                lines += ["m find 0 %d" % k for k in keys]
+                # a few more elements, then again
+                extra = rng.sample(range(100000, 200000), 3)
+                for k in extra:
+                    lines.append("m insert 0 %d %d" % (k, k % 997))
+                keys += extra
+            out.append((cfg, lines))
+    return out
+
+
 def run(tier):
     res = C.Result("C13", tier)
     rng = random.Random(C.seed() * 7919 + 13)
@@ -213,6 +240,9 @@ def run(tier):
             for f in fails:
                 res.add_failing(f)
     placement_phase(res, tier, rng)
+    import k2check
+    k2check.streams_phase("C13", "stranding", stranding_streams, also=("C02", "C05"),
+                          what="a key is unreachable from its hash / miscounted after an explicit resize whose rebuild doubled with deferred migration")(res, tier)
     res.assumptions = ["shifts by >= 64 are undefined in C++ and excluded (theorems assume hp < 64; doubling facts hp+1 < 64)",
                        "reserve_calc theorem tied to the generated code for SLOT_PER_BUCKET=4; other S via K1 against the spec"]
     return C.finish(res, "proof", "cd lean && lake build Cuckoo.Props.C13 && #print axioms (check/common.py audit_axioms)")
@@ -240,6 +270,13 @@ def replay(path):
             print("replay %s: last answer: %s" % (cfg.name(), last))
             if (last.startswith("inv BAD") and any(c in last for c in PLACEMENT_CLAUSES)) or "Assertion" in out:
                 bad += 1
+            else:
+                orc = k2.RefMap(cfg)
+                for i, (ln, got) in enumerate(zip(f["prefix"], out.splitlines())):
+                    orc.step(i, ln, got)
+                if orc.fails:
+                    print("reference oracle: " + orc.fails[0]["why"])
+                    bad += 1
         if "hash" in f:
             hp, h = f["hashpower"], f["hash"]
             out = eval_cpp(k1, ["arith partial_key %d" % h, "arith index_hash %d %d" % (hp, h)])
